@@ -352,9 +352,20 @@ def rule_base(ctx, kernels=None, rid='base'):
             return isinstance(e, ast.Subscript) and isinstance(e.value, ast.Name) and (
                 (isinstance(e.slice, ast.Constant) and e.slice.value == 0 and e.slice.value is not False)
                 or (isinstance(e.slice, ast.Tuple) and e.slice.elts and isinstance(e.slice.elts[0], ast.Constant) and e.slice.elts[0].value == 0))
+        # locals that stand for the zeroth coefficient of a parameter (`x0 = x_data[0]`, assigned once)
+        stores_ = {}
+        for n_ in walk_no_nested(fi.node):
+            if isinstance(n_, ast.Name) and isinstance(n_.ctx, ast.Store):
+                stores_[n_.id] = stores_.get(n_.id, 0) + 1
+        zero_alias = {s_.targets[0].id for s_ in walk_no_nested(fi.node) if isinstance(s_, ast.Assign) and len(s_.targets) == 1
+                      and isinstance(s_.targets[0], ast.Name) and stores_.get(s_.targets[0].id) == 1 and _zeroth(s_.value)
+                      and s_.value.value.id in fi.params}
+
+        def _zeroth_arg(e):
+            return (_zeroth(e) and e.value.id in fi.params) or (isinstance(e, ast.Name) and e.id in zero_alias)
         st = [s for s in walk_no_nested(fi.node) if isinstance(s, ast.Assign) and len(s.targets) == 1 and _zeroth(s.targets[0])
               and isinstance(s.value, ast.Call) and isinstance(s.value.func, ast.Name) and s.value.func.id == fpar
-              and len(s.value.args) == 1 and _zeroth(s.value.args[0]) and s.value.args[0].value.id in fi.params]
+              and len(s.value.args) == 1 and _zeroth_arg(s.value.args[0])]
         if st:
             r.ok(construct=h, sample='%s: `%s`' % (h, norm(st[0])))
         else:
@@ -565,7 +576,7 @@ def _dtype_sources(fi, call):
     d = dotted_name(call.func) or ''
     last = d.split('.')[-1]
     names = set()
-    if last in ('zeros_like', 'empty_like', 'ones_like') and call.args:
+    if last in ('zeros_like', 'empty_like', 'ones_like') and call.args and not any(k.arg == 'dtype' for k in call.keywords) and len(call.args) < 2:
         names |= {n.id for n in ast.walk(call.args[0]) if isinstance(n, ast.Name)}
         return names, 'like'
     kw = [k.value for k in call.keywords if k.arg == 'dtype']
